@@ -156,6 +156,7 @@ def main(argv):
                     continue
                 yield cls, idx, None
 
+    kept = {}
     for cls, idx, case in work():
         if True:
             rng = core.case_rng(seed, spec["prop"], cls, idx)
@@ -212,13 +213,22 @@ def main(argv):
                         break
                     continue
             for v in viols:
-                if len(result["violations"]) < 40:
+                # records that carry the key of a listed finding are capped
+                # per key, everything else on its own: thousands of
+                # witnesses of a known finding must never crowd out a
+                # violation found later in the shard
+                bucket = "finding:%s" % v["key"] if v.get("key") else "other"
+                kept[bucket] = kept.get(bucket, 0) + 1
+                if kept[bucket] <= (40 if bucket == "other" else 12):
                     v.update(cls=cls, idx=idx, case_repr=repr(case),
                              ambient=spec.get("ambient", 0))
                     result["violations"].append(v)
-                else:
+                elif bucket == "other":
                     result["violations_dropped"] = \
                         result.get("violations_dropped", 0) + 1
+                else:
+                    fd = result.setdefault("findings_dropped", {})
+                    fd[v["key"]] = fd.get(v["key"], 0) + 1
             if want_samples.get(cls, 0) < 1 and len(ctx.samples) < 6:
                 want_samples[cls] = 1
                 s = dict(cls=cls, idx=idx, outcome=outcome,
